@@ -112,6 +112,7 @@ const (
 	kStruct // configured struct
 	kError  // error interface holding parseError
 	kFunc
+	kBuf // []byte written in place: EncLow.Buf (logical bytes + stale capacity)
 	kOther
 )
 
@@ -133,9 +134,11 @@ type structCfg struct {
 	lean   string            // Lean structure name
 	fields map[string]string // Go field (possibly promoted) -> Lean projection path
 	tuple  []string          // if non-nil: the struct is a Lean tuple of these Go fields, in order
+	bufs   map[string]bool   // []byte fields modelled as EncLow.Buf
 }
 
 type primCfg struct {
+	bufLean string // variant used when the first argument is a written slice (result is one too)
 	lean    string
 	results int  // number of Go results
 	monadic bool // returns Res
@@ -152,6 +155,8 @@ type fnCfg struct {
 	callbacks   map[string]cbCfg
 	fuel        []string // fuel expression per loop (in source order), over Lean variable names
 	pure        bool     // emit a non-monadic definition (single return expression, nothing can panic)
+	extra       string   // extra leading binders shared by the file (e.g. the re-allocation oracle)
+	extraArgs   string   // the corresponding arguments at call sites
 	rec         bool     // the function calls itself: it takes a fuel argument shared with its loops (mutual structural recursion)
 	callFuel    map[string]string // fuel expression for calls of recursive functions, by callee Go name
 }
@@ -267,4 +272,14 @@ func sortedKeys(m map[string]bool) []string {
 	}
 	sort.Strings(ks)
 	return ks
+}
+
+// needsState: does the function thread a user state σ (callbacks that fill the caller's message)?
+func (f *fnCfg) needsState() bool {
+	for _, cb := range f.callbacks {
+		if cb.kind == "state" || cb.kind == "sink" {
+			return true
+		}
+	}
+	return false
 }
